@@ -63,6 +63,13 @@ type Frame struct {
 	curPos   token.Pos
 	blockEnds []token.Pos
 	nextBlock int
+	beforeDefs []beforeDef
+	nextBefore int
+}
+
+type beforeDef struct {
+	pos  token.Pos
+	name string
 }
 
 // ---------- CFG analysis ----------
@@ -359,7 +366,7 @@ func (v *Verifier) zeroValue(t types.Type) Value {
 	case *types.Slice:
 		return &SliceV{Off: v.F.I64(0), Len: v.F.I64(0), Cap: v.F.I64(0)}
 	case *types.Interface:
-		return &IfaceV{}
+		return &IfaceV{V: v.nilIface()}
 	case *types.Signature:
 		return &FuncV{}
 	case *types.Map:
